@@ -83,7 +83,7 @@ theorem encAll_flat_len (nS nM : Nat) : ∀ (t : Node), t.lin = true → ∀ (e 
     e.out.length ≤ e'.out.length
   | .ev ev, hl, e, e', h => by
     simp only [Node.flat] at h
-    obtain ⟨e'', h1, p, _, _, _⟩ := encEv_lin nS nM e ev (by simpa [Node.lin] using hl)
+    obtain ⟨e'', h1, p, _, _⟩ := encEv_lin_total nS nM e ev (by simpa [Node.lin] using hl)
     rw [encAll_single_ok h] at h1
     simp only [Except.ok.injEq] at h1; subst h1
     exact p.length_le
@@ -281,6 +281,26 @@ theorem shape_f_conv (nS nM : Nat) (ta : List Node) (ha : linL ta = true) (ka : 
   obtain ⟨e1, h2, h3⟩ := encAll_append_ok h1
   have h4 := encAll_single_ok h3
   rw [encEv_finish] at h4
+  simp only [Except.ok.injEq] at h4
+  subst h4
+  simp only [List.length_append, List.length_cons, List.length_nil] at hb
+  exact ⟨e1, encL_conv nS nM ta false ha ka {} e1 (fun h => by cases h) h2 (by omega), rfl⟩
+
+theorem encEv_dmfinish (nS nM : Nat) (e : Enc) (arg : Nat) :
+    encEv nS nM e ⟨mds_DMFINISH, arg⟩ =
+      .ok { e with out := e.out ++ [mds_DMFINISH, arg % 256], lastType := mds_DMFINISH } :=
+  encEv_other (by decide) (encOther_byte nS nM e arg (by decide))
+
+/-- **a drum routine from the real side**: a stream `convert_track` made of `ta, DMFINISH k`, shorter
+than 64 KiB -/
+theorem shape_d_conv (nS nM : Nat) (ta : List Node) (ha : linL ta = true) (ka : brkOkL false ta = true) (darg : Nat)
+    (bytes : List Nat) (h : convertTrack nS nM (flatL ta ++ [⟨mds_DMFINISH, darg⟩]) = .ok bytes)
+    (hb : bytes.length < 65536) :
+    ∃ eA, encL nS nM ta {} = .ok eA ∧ bytes = eA.out ++ [mds_DMFINISH, darg % 256] := by
+  obtain ⟨e', h1, rfl⟩ := convertTrack_ok h
+  obtain ⟨e1, h2, h3⟩ := encAll_append_ok h1
+  have h4 := encAll_single_ok h3
+  rw [encEv_dmfinish] at h4
   simp only [Except.ok.injEq] at h4
   subst h4
   simp only [List.length_append, List.length_cons, List.length_nil] at hb
